@@ -51,6 +51,10 @@ class CGenerator:
         return n.name
 
     def visit_Pragma(self, n: c_ast.Pragma) -> str:
+        if isinstance(n.string, c_ast.Node):
+            # The _Pragma("...") operator form keeps its string literal as a
+            # Constant node.
+            return "_Pragma(" + self.visit(n.string) + ")"
         ret = "#pragma"
         if n.string:
             ret += " " + n.string
